@@ -50,6 +50,8 @@ type Server struct {
 	kvServed       uint64
 	CatalogErr     map[string]bool // service names whose catalog lookup fails (fault injection)
 	healthWake     uint64          // bumped by WakeHealth: parked health queries return with the unchanged index
+	kvFail         bool            // every KV request fails with 500 (fault injection)
+	kvWake         uint64
 }
 
 func New() *Server {
@@ -107,6 +109,15 @@ func (s *Server) WakeHealth() {
 	s.cond.Broadcast()
 }
 
+// SetKVFail makes every KV request fail (500) or work again; parked KV queries are released.
+func (s *Server) SetKVFail(fail bool) {
+	s.mu.Lock()
+	s.kvFail = fail
+	s.kvWake++
+	s.mu.Unlock()
+	s.cond.Broadcast()
+}
+
 // Touch bumps the health index without changing anything (watchers wake up and re-read).
 func (s *Server) Touch() { s.Mutate(func() {}) }
 
@@ -136,6 +147,7 @@ func (s *Server) Reset() {
 	})
 	s.mu.Lock()
 	s.CatalogErr = map[string]bool{}
+	s.kvFail = false
 	s.mu.Unlock()
 }
 
@@ -277,13 +289,19 @@ func (s *Server) kvGet(w http.ResponseWriter, r *http.Request, key string) {
 	idx := waitIndex(r)
 	_, recurse := r.URL.Query()["recurse"]
 	s.mu.Lock()
-	for idx >= s.kvIndex && r.Context().Err() == nil {
+	wake := s.kvWake
+	for idx >= s.kvIndex && wake == s.kvWake && !s.kvFail && r.Context().Err() == nil {
 		s.kvParkedAt[key] = idx
 		s.cond.Wait()
 	}
 	s.kvParkedAt[key] = 0
 	if r.Context().Err() != nil {
 		s.mu.Unlock()
+		return
+	}
+	if s.kvFail {
+		s.mu.Unlock()
+		http.Error(w, "injected KV failure", 500)
 		return
 	}
 	var keys []string
